@@ -487,3 +487,17 @@ func Derive(l *logger.Logger, chain []Step) *logger.Logger {
 
 // GenInstant draws the record time for the direct Handle entry point.
 func GenInstant() *rapid.Generator[time.Time] { return genTime() }
+
+// GenDecoys draws, for every step of a chain, 0..2 sibling derivations applied to the same parent.
+func GenDecoys(o GenOpts, chainLen int) *rapid.Generator[[][]Step] {
+	return rapid.Custom(func(t *rapid.T) [][]Step {
+		out := make([][]Step, chainLen)
+		for i := range out {
+			n := rapid.SampledFrom([]int{0, 0, 1, 1, 2}).Draw(t, "ndecoys")
+			for k := 0; k < n; k++ {
+				out[i] = append(out[i], GenStep(o).Draw(t, "decoy"))
+			}
+		}
+		return out
+	})
+}
